@@ -194,8 +194,10 @@ def classify(h, r):
         st = c.get("status", "").upper()
         cat = c.get("category", "")
         desc = c.get("description", "")
-        if cat == "cover" or st in ("SATISFIED", "UNSATISFIABLE", "UNREACHABLE") and cat == "cover":
-            covers[desc] = st
+        if cat == "cover":
+            # the same label may sit at several sites: SATISFIED if any site is
+            if covers.get(desc) != "SATISFIED":
+                covers[desc] = st
             continue
         if st == "FAILURE":
             if cat == "unwind" or desc.startswith("unwinding assertion"):
